@@ -232,13 +232,18 @@ def genotype(
             )
 
     # Get copy-number solutions
-    cn_sols = cn.estimate_cn(
-        gene,
-        profile,
-        sample.coverage,
-        solver=solver,
-        debug=debug,
-    )
+    try:
+        cn_sols = cn.estimate_cn(
+            gene,
+            profile,
+            sample.coverage,
+            solver=solver,
+            debug=debug,
+        )
+    except AldyException:
+        if is_simple:
+            print(file=output_file)
+        raise
 
     # Add SLACK to each score to avoid division by zero or other numerical issues
     # when the optimum is close to zero.
